@@ -134,6 +134,12 @@ def run_adversarial(wd, scenarios, tag, seed=0, timeout=3000, shards=1):
             groups.append(json.load(open(mf)))
         if job["p"].returncode == 0:
             continue
+        if job["p"].returncode == 3:
+            # a call that never returned was recorded (violation "hang"); the shard goes on in a fresh process
+            rest = [s for s in job["part"] if s["id"] not in outcomes]
+            if rest and job["gen"] < 40:
+                running.append(start(job["sh"], job["gen"] + 1, rest))
+            continue
         prog = os.path.join(wd, t + "_progress")
         cur = open(prog).read().strip() if os.path.exists(prog) else ""
         if job["p"].returncode == 2 and "hadv:" in err:
